@@ -30,6 +30,10 @@ enum Pos {
     A0(usize),
     /// set_params after a clean build, component k replaced
     Set(usize),
+    /// element (i, j) of the basis matrix itself
+    Phi(usize, usize),
+    /// element (i, j) of the derivative matrix with respect to parameter k
+    Dphi(usize, usize, usize),
 }
 
 #[derive(Debug, Clone)]
@@ -79,6 +83,8 @@ fn pos_json(p: &Pos) -> Value {
         Pos::W(i) => json!(["w", i]),
         Pos::A0(k) => json!(["a0", k]),
         Pos::Set(k) => json!(["set", k]),
+        Pos::Phi(i, j) => json!(["phi", i, j]),
+        Pos::Dphi(k, i, j) => json!(["dphi", k, i, j]),
     }
 }
 fn pos_parse(v: &Value) -> Pos {
@@ -90,6 +96,8 @@ fn pos_parse(v: &Value) -> Pos {
         "w" => Pos::W(i),
         "a0" => Pos::A0(i),
         "set" => Pos::Set(i),
+        "phi" => Pos::Phi(i, a[2].as_u64().unwrap() as usize),
+        "dphi" => Pos::Dphi(i, a[2].as_u64().unwrap() as usize, a[3].as_u64().unwrap() as usize),
         o => panic!("pos {}", o),
     }
 }
@@ -135,6 +143,14 @@ fn positions(b: &Base) -> Vec<Pos> {
             v.push(Pos::W(i));
         }
     }
+    for i in 0..b.n.min(3) {
+        for j in 0..b.fam.m() {
+            v.push(Pos::Phi(i, j));
+            for k in 0..b.fam.p() {
+                v.push(Pos::Dphi(k, i, j));
+            }
+        }
+    }
     v
 }
 
@@ -159,6 +175,7 @@ fn run_case<T: Sc>(ctx: &Ctx, b: &Base, subs: &[(Pos, f64)]) {
     }
     let mut w: Option<Vec<f64>> = if b.weighted { WKind::Ramp.make(b.n) } else { None };
     let mut set_alpha: Option<Vec<f64>> = None;
+    let mut tamper: Vec<(Option<usize>, usize, usize, f64)> = vec![];
     for (p, v) in subs {
         match *p {
             Pos::X(i) => x[i] = *v,
@@ -170,6 +187,8 @@ fn run_case<T: Sc>(ctx: &Ctx, b: &Base, subs: &[(Pos, f64)]) {
                 a[k] = *v;
                 set_alpha = Some(a);
             }
+            Pos::Phi(i, j) => tamper.push((None, i, j, *v)),
+            Pos::Dphi(k, i, j) => tamper.push((Some(k), i, j, *v)),
         }
     }
     let spec = ModelSpec::new(b.fam.clone(), x);
@@ -178,7 +197,10 @@ fn run_case<T: Sc>(ctx: &Ctx, b: &Base, subs: &[(Pos, f64)]) {
     let api = if b.s == 1 { Api::Single } else { Api::Mrhs };
     let stage = std::cell::Cell::new("build");
     let r = guarded(|| {
-        let model = make::<T>(&spec, b.prov, &a0);
+        let mut model = make::<T>(&spec, b.prov, &a0);
+        for (d, i, j, v) in &tamper {
+            model = vpmc::wrap::Tamper::wrap(model, *d, *i, *j, T::f(*v));
+        }
         let phi0_nonfinite = model.eval().map(|m| m.iter().any(|v| !v.d().is_finite())).unwrap_or(false);
         let built = prob::build(model, &yt, wt.as_ref(), None, api, b.par);
         let mut problem = match built {
